@@ -112,3 +112,210 @@ impl From<SimplifiedAdf> for Adf {
     }
 }
 
+
+// ---- handler closures, generated from server/src/adf.rs and server/src/config.rs
+use std::sync::Mutex;
+use adf_bdd::adfbiodivine::Adf as BdAdf;
+use adf_bdd::parser::AdfParser;
+use crate::double_labeled_graph::DoubleLabeledGraph;
+type Ac = Vec<Term>;
+#[derive(Copy, Clone, Debug, Deserialize, Serialize)]
+pub(crate) enum Parsing {
+    Naive,
+    Hybrid,
+}
+#[derive(Copy, Clone, Debug, PartialEq, Eq, Hash, Deserialize, Serialize)]
+pub(crate) enum Strategy {
+    Ground,
+    Complete,
+    Stable,
+    StableCountingA,
+    StableCountingB,
+    StableNogood,
+}
+#[derive(Clone, Deserialize, Serialize)]
+pub(crate) struct AcAndGraph {
+    pub(crate) ac: AcDb,
+    pub(crate) graph: DoubleLabeledGraph,
+}
+#[derive(Clone, Default, Deserialize, Serialize)]
+#[serde(tag = "type", content = "content")]
+pub(crate) enum OptionWithError<T> {
+    Some(T),
+    Error(String),
+    #[default]
+    None,
+}
+impl<T> OptionWithError<T> {
+    fn is_some(&self) -> bool {
+        matches!(self, Self::Some(_))
+    }
+}
+#[derive(Default, Deserialize, Serialize)]
+pub(crate) struct AcsPerStrategy {
+    pub(crate) parse_only: AcsAndGraphsOpt,
+    pub(crate) ground: AcsAndGraphsOpt,
+    pub(crate) complete: AcsAndGraphsOpt,
+    pub(crate) stable: AcsAndGraphsOpt,
+    pub(crate) stable_counting_a: AcsAndGraphsOpt,
+    pub(crate) stable_counting_b: AcsAndGraphsOpt,
+    pub(crate) stable_nogood: AcsAndGraphsOpt,
+}
+#[derive(Deserialize, Serialize)]
+pub(crate) struct AdfProblem {
+    pub(crate) name: String,
+    pub(crate) username: String,
+    pub(crate) code: String,
+    pub(crate) parsing_used: Parsing,
+    pub(crate) adf: SimplifiedAdfOpt,
+    pub(crate) acs_per_strategy: AcsPerStrategy,
+}
+#[derive(Clone)]
+struct AddAdfProblemBodyPlain {
+    name: String,
+    code: String,
+    parsing: Parsing,
+}
+#[derive(Serialize)]
+struct AdfProblemInfo {
+    name: String,
+    code: String,
+    parsing_used: Parsing,
+    acs_per_strategy: AcsPerStrategy,
+    running_tasks: Vec<Task>,
+}
+impl AdfProblemInfo {
+    fn from_adf_prob_and_tasks(adf: AdfProblem, tasks: &HashSet<RunningInfo>) -> Self {
+        AdfProblemInfo {
+            name: adf.name.clone(),
+            code: adf.code,
+            parsing_used: adf.parsing_used,
+            acs_per_strategy: adf.acs_per_strategy,
+            running_tasks: tasks
+                .iter()
+                .filter_map(|t| {
+                    (t.adf_name == adf.name && t.username == adf.username).then_some(t.task)
+                })
+                .collect(),
+        }
+    }
+}
+#[derive(Deserialize)]
+struct SolveAdfProblemBody {
+    strategy: Strategy,
+}
+type AcsAndGraphsOpt = OptionWithError<Vec<AcAndGraph>>;
+type SimplifiedAdfOpt = OptionWithError<SimplifiedAdf>;
+#[derive(Copy, Clone, Debug, PartialEq, Eq, Hash, Serialize)]
+#[serde(tag = "type", content = "content")]
+pub(crate) enum Task {
+    Parse,
+    Solve(Strategy),
+}
+#[derive(Clone, Debug, PartialEq, Eq, Hash)]
+pub(crate) struct RunningInfo {
+    pub(crate) username: String,
+    pub(crate) adf_name: String,
+    pub(crate) task: Task,
+}
+pub(crate) struct AppState { pub(crate) currently_running: Mutex<HashSet<RunningInfo>> }
+pub(crate) fn add_closure(app_state: Arc<AppState>, username: String, problem_name: String, code: String, parsing: Parsing) -> Result<(SimplifiedAdf, AcAndGraph), &'static str> {
+    let username_clone = username.clone();
+    let problem_name_clone = problem_name.clone();
+    let adf_problem_input = AddAdfProblemBodyPlain { name: problem_name.clone(), code, parsing };
+    (move || {
+            let running_info = RunningInfo {
+                username: username_clone,
+                adf_name: problem_name_clone,
+                task: Task::Parse,
+            };
+
+            app_state
+                .currently_running
+                .lock()
+                .unwrap()
+                .insert(running_info.clone());
+
+            #[cfg(feature = "mock_long_computations")]
+            std::thread::sleep(Duration::from_secs(20));
+
+            let parser = AdfParser::default();
+            let parse_result = parser.parse()(&adf_problem_input.code)
+                .map_err(|_| "ADF could not be parsed, double check your input!");
+
+            let result = parse_result.map(|_| {
+                let lib_adf = match adf_problem_input.parsing {
+                    Parsing::Naive => Adf::from_parser(&parser),
+                    Parsing::Hybrid => {
+                        let bd_adf = BdAdf::from_parser(&parser);
+                        bd_adf.hybrid_step_opt(false)
+                    }
+                };
+
+                let ac_and_graph = AcAndGraph {
+                    ac: lib_adf.ac.iter().map(|t| t.0.to_string()).collect(),
+                    graph: DoubleLabeledGraph::from_adf_and_ac(&lib_adf, None),
+                };
+
+                (SimplifiedAdf::from(lib_adf), ac_and_graph)
+            });
+
+            app_state
+                .currently_running
+                .lock()
+                .unwrap()
+                .remove(&running_info);
+
+            result
+        })()
+}
+pub(crate) fn solve_closure(app_state: Arc<AppState>, running_info: RunningInfo, simp_adf: SimplifiedAdf, strategy: Strategy) -> Vec<AcAndGraph> {
+    let adf_problem_input = SolveAdfProblemBody { strategy };
+    let username = running_info.username.clone();
+    let problem_name = running_info.adf_name.clone();
+    let username_clone = username.clone();
+    let problem_name_clone = problem_name.clone();
+    (move || {
+            app_state
+                .currently_running
+                .lock()
+                .unwrap()
+                .insert(running_info.clone());
+
+            #[cfg(feature = "mock_long_computations")]
+            std::thread::sleep(Duration::from_secs(20));
+
+            let mut adf: Adf = simp_adf.into();
+
+            let acs: Vec<Ac> = match adf_problem_input.strategy {
+                Strategy::Complete => adf.complete().collect(),
+                Strategy::Ground => vec![adf.grounded()],
+                Strategy::Stable => adf.stable().collect(),
+                // TODO: INPUT VALIDATION: only allow this for hybrid parsing
+                Strategy::StableCountingA => adf.stable_count_optimisation_heu_a().collect(),
+                // TODO: INPUT VALIDATION: only allow this for hybrid parsing
+                Strategy::StableCountingB => adf.stable_count_optimisation_heu_b().collect(),
+                // TODO: support more than just default heuristics
+                Strategy::StableNogood => adf
+                    .stable_nogood(adf_bdd::adf::heuristics::Heuristic::default())
+                    .collect(),
+            };
+
+            let acs_and_graphs: Vec<AcAndGraph> = acs
+                .iter()
+                .map(|ac| AcAndGraph {
+                    ac: ac.iter().map(|t| t.0.to_string()).collect(),
+                    graph: DoubleLabeledGraph::from_adf_and_ac(&adf, Some(ac)),
+                })
+                .collect();
+
+            app_state
+                .currently_running
+                .lock()
+                .unwrap()
+                .remove(&running_info);
+
+            acs_and_graphs
+        })()
+}
+pub(crate) fn running_tasks_of(adf: AdfProblem, tasks: &HashSet<RunningInfo>) -> Vec<Task> { AdfProblemInfo::from_adf_prob_and_tasks(adf, tasks).running_tasks }
